@@ -58,13 +58,13 @@ func (t *ncbiTable) truth() map[[2]byte]float64 {
 	return m
 }
 
-// ncbiLabels: printable ASCII without '#', plus high bytes below 255.
+// ncbiLabels: printable ASCII, plus high bytes below 255. The label '#' is
+// legal where it does not begin a line (only lines *beginning* with '#' are
+// comments); the renderer indents any line whose first token is "#".
 var ncbiLabels = func() []byte {
 	var out []byte
 	for b := 0x21; b <= 0x7e; b++ {
-		if b != '#' {
-			out = append(out, byte(b))
-		}
+		out = append(out, byte(b))
 	}
 	for b := 0x80; b <= 0xfe; b++ {
 		out = append(out, byte(b))
@@ -74,8 +74,11 @@ var ncbiLabels = func() []byte {
 
 func genLabels(r *rand.Rand, n int) []byte {
 	pool := ncbiLabels
-	if r.IntN(2) == 0 {
+	switch r.IntN(5) {
+	case 0, 1:
 		pool = []byte("ARNDCQEGHILKMFPSTWYVBZX*")
+	case 2:
+		pool = []byte("#*ACGT@;>+")
 	}
 	perm := r.Perm(len(pool))
 	n = min(n, len(pool))
@@ -208,7 +211,7 @@ func renderTokens(r *rand.Rand, lines [][]string, l ncbiLayout) []byte {
 			buf.WriteString("#" + string(randBytesExcl(r, l.long, noCRLF)) + eol)
 		}
 		var sb strings.Builder
-		if l.lead && (li == 0 || r.IntN(2) == 0) && len(toks) > 0 {
+		if len(toks) > 0 && ((l.lead && (li == 0 || r.IntN(2) == 0)) || strings.HasPrefix(toks[0], "#")) {
 			sb.WriteString(l.sep(r))
 		}
 		for i, tok := range toks {
